@@ -333,17 +333,27 @@ class MagnitudeFlow:
       misaligned    [(node, index texts)] element-wise operations whose operands are not on one index
       mixed_units   [(node, unit texts)] element-wise operations whose operands are not in one unit"""
 
-    def __init__(self, fn, sink_of, tables=None, find_method=None):
+    def __init__(self, fn, sink_of, tables=None, find_method=None, records=None):
         self.ok, self.escaped, self.alias, self.spelled, self.roots = {}, set(), {}, {}, {}
         self.elementwise, self.misaligned, self.mixed_units, self.untraced = [], [], [], []
         self.fn, self.sink_of, self.find_method = fn, sink_of, find_method
+        self.records = records or {}       # record classes of the module: name -> field names in order
+        self.returned = set()              # extractions handed back to the caller (judged in the callers' flows)
+        self.collect, self.depth = None, 0
         from ..astutil import expanded as _exp
         self._exp = lambda e: _exp(e, fn)
+        # class-level tables of the enclosing class read as self.TABLE
+        cls_ = getattr(fn, "_parent", None)
+        class_tables = {st_.targets[0].id: st_.value for st_ in (cls_.body if isinstance(cls_, ast.ClassDef) else [])
+                        if isinstance(st_, ast.Assign) and len(st_.targets) == 1 and isinstance(st_.targets[0], ast.Name)
+                        and isinstance(st_.value, ast.Dict)}
         # locals bound to a numpy function out of a literal table: `f = {"max": np.maximum, "min": np.minimum}.get(k)` / `[k]`
         self.callables = {}
-        for a_ in ast.walk(fn):
-            if isinstance(a_, ast.Assign) and len(a_.targets) == 1 and isinstance(a_.targets[0], ast.Name):
-                v_ = a_.value
+        bindings = [(a_.targets[0], a_.value) for a_ in ast.walk(fn) if isinstance(a_, ast.Assign) and len(a_.targets) == 1] + \
+            [(a_.target, a_.value) for a_ in ast.walk(fn) if isinstance(a_, ast.NamedExpr)]
+        for tgt_, v_ in bindings:
+            if isinstance(tgt_, ast.Name):
+                a_ = ast.Assign(targets=[tgt_], value=v_)
                 alts = [v_.body, v_.orelse] if isinstance(v_, ast.IfExp) else None
                 if alts and all(isinstance(x, ast.Attribute) and isinstance(x.value, ast.Name) and x.value.id in ("np", "numpy")
                                 for x in alts):
@@ -356,6 +366,8 @@ class MagnitudeFlow:
                     tab = v_.value
                 if isinstance(tab, ast.Name) and tables is not None:
                     tab = tables.get(tab.id)
+                elif isinstance(tab, ast.Attribute) and isinstance(tab.value, ast.Name) and tab.value.id in ("self", "cls"):
+                    tab = class_tables.get(tab.attr)
                 if isinstance(tab, ast.Dict) and tab.values and all(
                         isinstance(x, ast.Attribute) and isinstance(x.value, ast.Name) and x.value.id in ("np", "numpy")
                         for x in tab.values):
@@ -363,10 +375,11 @@ class MagnitudeFlow:
         self.facts = []          # stack of sets of frozenset({index text, index text}) known equal
         self.run(fn.body, {})
         for i, behind in self.alias.items():
-            if behind and all(b in self.ok and b not in self.escaped for b in behind):
-                self.ok[i] = self.ok[next(iter(behind))]
-            else:
+            # plumbing sites stand or fall with the extractions behind them (undecided while those are only handed back)
+            if any(b in self.escaped for b in behind) or not behind:
                 self.escaped.add(i)
+            elif all(b in self.ok for b in behind):
+                self.ok[i] = self.ok[next(iter(behind))]
 
     ZERO = ("zeros", "*", "*")
 
@@ -407,13 +420,20 @@ class MagnitudeFlow:
                 idx = norm(self._exp(c.args[0]))
         return (sid, u, idx)
 
+    @staticmethod
+    def _flat(v):
+        """the triples of an environment value (a set, or a record {field: set})"""
+        if isinstance(v, dict):
+            return {t for f_ in v.get("__rec__", {}).values() for t in f_}
+        return set(v)
+
     def kill(self, e, env):
         for x in ast.walk(e):
             st = self.site(x) if isinstance(x, (ast.Attribute, ast.Call)) else None
             if st is not None:
                 self.escaped.add(st[0])
             if isinstance(x, ast.Name) and x.id in env and x.id != "__facts__":
-                self.escaped.update(i for i, _, _ in env[x.id])
+                self.escaped.update(i for i, _, _ in self._flat(env[x.id]))
         return set()
 
     def equal_indexes(self, a, b, env):
@@ -434,6 +454,14 @@ class MagnitudeFlow:
 
     def ev(self, e, env):
         zero, kill, ev = self.zero, self.kill, self.ev
+        if isinstance(e, ast.Attribute) and isinstance(e.value, ast.Name) and isinstance(env.get(e.value.id), dict) \
+                and "__rec__" in env[e.value.id]:
+            return set(env[e.value.id]["__rec__"].get(e.attr, ()))     # a field of a record returned by a helper
+        if isinstance(e, ast.NamedExpr):
+            v_ = ev(e.value, env)
+            if isinstance(e.target, ast.Name):
+                env[e.target.id] = v_
+            return v_
         st = self.site(e) if isinstance(e, (ast.Attribute, ast.Call)) else None
         if st is not None:
             behind = ev(self.sink_of(e).value, env)
@@ -450,7 +478,8 @@ class MagnitudeFlow:
                 or (len(e.args) >= 2 and zero(e.args[1]))):
             return {self.ZERO}
         if isinstance(e, ast.Name):
-            return set(env.get(e.id, ()))
+            v_ = env.get(e.id, ())
+            return set() if isinstance(v_, dict) else set(v_)
         if isinstance(e, ast.Constant):
             return set()
         if isinstance(e, ast.BinOp) and isinstance(e.op, (ast.Add, ast.Sub)):
@@ -525,6 +554,11 @@ class MagnitudeFlow:
                 if v is not None and ev(v, env):
                     kill(v, env)
             return set()
+        if isinstance(e, ast.Call) and isinstance(e.func, ast.Name) and e.func.id in self.records:
+            out_ = set()
+            for a in list(e.args) + [k.value for k in e.keywords]:
+                out_ |= ev(a, env)
+            return out_          # a record of arrays: carried as such (its fields are told apart where a helper returns it)
         if isinstance(e, ast.Call):
             # any other call: arguments that carry bare numbers leave the analysis
             for a in list(e.args) + [k.value for k in e.keywords]:
@@ -632,15 +666,80 @@ class MagnitudeFlow:
                 for e in nxt:
                     for k, v in e.items():
                         if k != "__facts__":
-                            joined[k] = joined.get(k, set()) | set(v)
+                            joined[k] = self._flat(joined.get(k, set())) | self._flat(v)
                 nxt = [joined]
             envs = nxt
             if not envs:
                 break
         return envs
 
+    def call_helper(self, call, env):
+        """[(value, facts)] for a call `self.<helper>(args)` of a same-class method evaluated in place, one entry per path
+        through the helper that returns; value is a set of triples or a record {field: set}. None when the call is not
+        such a helper (or the depth limit is reached)."""
+        if not (isinstance(call, ast.Call) and isinstance(call.func, ast.Attribute) and isinstance(call.func.value, ast.Name)
+                and call.func.value.id == "self" and self.find_method is not None and self.depth < 2):
+            return None
+        h = self.find_method(call.func.attr)
+        if h is None or h is self.fn or any("property" in norm(d) for d in h.decorator_list) \
+                or not any(self.sink_of(x) is not None for x in ast.walk(h)):
+            return None
+        from ..astutil import helper_view, expanded as _exp_h
+        hv = helper_view(h, call)
+        self._map_back(h, hv, {a.arg for a in h.args.args})
+        saved = (self.collect, self._exp, self.depth)
+        self.collect, self.depth = [], self.depth + 1
+        self._exp = lambda e, _hv=hv: _exp_h(e, _hv)
+        start = {"__facts__": env.get("__facts__", frozenset())}
+        # what the arguments carry is visible under the parameter names that the view kept (names that are tainted
+        # locals of the caller stay themselves after substitution)
+        for k_, v_ in env.items():
+            if k_ != "__facts__":
+                start[k_] = v_
+        try:
+            self.run(hv.body, start)
+            rets = self.collect
+        finally:
+            self.collect, self._exp, self.depth = saved
+        out = []
+        for rv, renv in rets:
+            if isinstance(rv, ast.Call) and isinstance(rv.func, ast.Name) and rv.func.id in self.records \
+                    and not any(isinstance(a_, ast.Starred) for a_ in rv.args):
+                names = self.records[rv.func.id]
+                rec = {}
+                # (the record's arguments are evaluated in the helper's terms)
+                keep = self._exp
+                self._exp = lambda e, _hv=hv: _exp_h(e, _hv)
+                try:
+                    for n_, a_ in zip(names, rv.args):
+                        rec[n_] = self.ev(a_, renv)
+                    for k_ in rv.keywords:
+                        if k_.arg:
+                            rec[k_.arg] = self.ev(k_.value, renv)
+                finally:
+                    self._exp = keep
+                out.append(({"__rec__": rec}, renv.get("__facts__", frozenset())))
+            else:
+                keep = self._exp
+                self._exp = lambda e, _hv=hv: _exp_h(e, _hv)
+                try:
+                    out.append((self.ev(rv, renv) if rv is not None else set(), renv.get("__facts__", frozenset())))
+                finally:
+                    self._exp = keep
+        return out
+
     def step(self, st, env):
         ev, kill, assign, run = self.ev, self.kill, self.assign, self.run
+        if isinstance(st, ast.Assign) and len(st.targets) == 1 and isinstance(st.targets[0], ast.Name):
+            paths = self.call_helper(st.value, env)
+            if paths is not None:
+                outs = []
+                for val, facts in paths:
+                    e2 = dict(env)
+                    e2["__facts__"] = frozenset(env.get("__facts__", ())) | frozenset(facts)
+                    e2[st.targets[0].id] = val
+                    outs.append(e2)
+                return outs or [env]
         if isinstance(st, ast.Assign):
             structured = isinstance(st.targets[0], (ast.Tuple, ast.List)) and (
                 isinstance(st.value, (ast.Tuple, ast.List, ast.GeneratorExp)) or (
@@ -670,7 +769,7 @@ class MagnitudeFlow:
             for e in envs:
                 for k, v in e.items():
                     if k != "__facts__":
-                        joined[k] = set(joined.get(k, ())) | set(v)
+                        joined[k] = v if isinstance(v, dict) and k not in env else self._flat(joined.get(k, ())) | self._flat(v)
             return run(st.orelse, joined)
         elif isinstance(st, ast.Try):
             out = run(st.body, dict(env))
@@ -685,10 +784,17 @@ class MagnitudeFlow:
             if v:
                 self.escaped.update(i for i, _, _ in v)
         elif isinstance(st, ast.Return):
+            if self.collect is not None:
+                self.collect.append((st.value, dict(env)))      # a helper evaluated in place: the caller goes on with it
+                return []
             if st.value is not None:
                 v = ev(st.value, env)
                 if v:
-                    self.escaped.update(i for i, _, _ in v)
+                    # handed back to the caller: judged where the function is called
+                    self.returned.update(i for i, _, _ in v)
+                for x in ast.walk(st.value):
+                    if isinstance(x, ast.Name) and isinstance(env.get(x.id), dict):
+                        self.returned.update(i for i, _, _ in self._flat(env[x.id]))
             return []
         elif isinstance(st, (ast.Raise, ast.Assert)):
             for ch in ast.iter_child_nodes(st):
@@ -701,9 +807,24 @@ class MagnitudeFlow:
         return [env]
 
 
-def _magnitude_flow(fn, sink_of, tables=None, find_method=None):
-    mf = MagnitudeFlow(fn, sink_of, tables, find_method)
+def _magnitude_flow(fn, sink_of, tables=None, find_method=None, records=None):
+    mf = MagnitudeFlow(fn, sink_of, tables, find_method, records)
     return mf.ok, mf.escaped
+
+
+def module_record_classes(tree):
+    """{class name: field names in order} for the NamedTuple / dataclass classes and namedtuple(...) assignments of a module"""
+    out = {}
+    for st in tree.body:
+        if isinstance(st, ast.ClassDef) and (any(norm(b).split(".")[-1] == "NamedTuple" for b in st.bases)
+                                             or any("dataclass" in norm(d) for d in st.decorator_list)):
+            out[st.name] = [b.target.id for b in st.body if isinstance(b, ast.AnnAssign) and isinstance(b.target, ast.Name)]
+        if isinstance(st, ast.Assign) and len(st.targets) == 1 and isinstance(st.targets[0], ast.Name) \
+                and isinstance(st.value, ast.Call) and norm(st.value.func).split(".")[-1] == "namedtuple" and len(st.value.args) >= 2:
+            spec = st.value.args[1]
+            out[st.targets[0].id] = [x.value for x in spec.elts if isinstance(x, ast.Constant)] \
+                if isinstance(spec, (ast.List, ast.Tuple)) else str(getattr(spec, "value", "")).replace(",", " ").split()
+    return out
 
 
 def module_dict_tables(tree):
@@ -880,10 +1001,29 @@ def r_mag(E):
             # 5. the bare numbers flow, through equivariant operations only (index alignment with zero fill, +, -,
             #    element-wise max / min / abs), into a PintArray in the very unit they were taken in
             if verdict is None:
-                if id(fn) not in flow_memo:
-                    flow_memo[id(fn)] = _magnitude_flow(fn, sink_of, module_dict_tables(tree),
-                                                        pm.helper_finder(cls.name) if cls is not None else None)
-                ok_sites, escaped = flow_memo[id(fn)]
+                if "all" not in flow_memo:
+                    # the flows of every function of this module (an extraction made in a helper that hands the arrays
+                    # back — `magnitudes_aligned_with(other)` returning a record of arrays — is judged in the functions
+                    # that call the helper, where the helper is evaluated in place)
+                    ok_all, esc_all = {}, set()
+                    recs = module_record_classes(tree)
+                    tabs = module_dict_tables(tree)
+                    for f_ in [x for x in ast.walk(tree) if isinstance(x, ast.FunctionDef)]:
+                        if not any(sink_of(y) is not None for y in ast.walk(f_)) and not any(
+                                isinstance(y, ast.Call) and isinstance(y.func, ast.Attribute) and norm(y.func.value) == "self"
+                                for y in ast.walk(f_)):
+                            continue
+                        c_ = getattr(f_, "_parent", None)
+                        # (helpers are looked up in this view of the module first: the sites judged are its nodes)
+                        finder_ = None
+                        if isinstance(c_, ast.ClassDef):
+                            own_ = {m_.name: m_ for m_ in c_.body if isinstance(m_, ast.FunctionDef)}
+                            finder_ = lambda nm_, _o=own_, _p=pm.helper_finder(c_.name): _o.get(nm_) or _p(nm_)
+                        mf_ = MagnitudeFlow(f_, sink_of, tabs, finder_, recs)
+                        ok_all.update(mf_.ok)
+                        esc_all |= mf_.escaped
+                    flow_memo["all"] = (ok_all, esc_all)
+                ok_sites, escaped = flow_memo["all"]
                 if id(n) in ok_sites and id(n) not in escaped:
                     verdict = f"flows through equivariant operations into a PintArray in the unit it was taken in ({ok_sites[id(n)]})"
             key = f"{rel}:{q} :: {norm(n if isinstance(n, ast.Attribute) else n)[:90]}"
